@@ -334,7 +334,9 @@ def resolve_loops(unit, h, od, lgb):
             if 'assigns' in loop:
                 lj['assigns'] = loop['assigns']
             ent['loop%d' % loop['index']] = lj
-        out['functions'].append({mf: [{'loop_id': k.replace('loop', ''), **v} for k, v in ent.items()]})
+        # goto-instrument treats the key as an ECMAScript regex: escape the mangled name
+        mf_rx = re.sub(r'([\\^$.|?*+()\[\]{}])', r'\\\1', mf)
+        out['functions'].append({mf_rx: [{'loop_id': k.replace('loop', ''), **v} for k, v in ent.items()]})
     # goto-instrument's format: {"sources":[...], "functions":[{"f":[{"loop_id":"0","invariants":"..","decreases":"..","symbol_map":".."}]}]}
     out['sources'] = spec.get('sources', [])
     p = os.path.join(od, h['name'] + '.loops.json')
@@ -360,6 +362,22 @@ def run_harness(unit, h, scratch):
         if PREPARE_ONLY:
             raise Undecided('prepared only: ' + lgb)
         cur = lgb
+        if h.get('pre_unwind'):
+            # loops nested inside a loop that gets a loop contract must be unwound before the instrumentation
+            rc, so, dt, to = run(['cbmc', '--show-loops', lgb], hd, 120)
+            names = re.findall(r'^Loop (.*):$', so, re.M)
+            us = []
+            for pu in h['pre_unwind']:
+                c = [n for n in names if re.fullmatch(pu['loop'], n)]
+                if len(c) != 1:
+                    raise Undecided('pre_unwind: loop regex %r matches %r' % (pu['loop'], c))
+                us.append('%s:%d' % (c[0], pu['bound']))
+            ugb = os.path.join(hd, 'u.gb')
+            rc, so, dt, to = run(['goto-instrument', '--unwindset', ','.join(us), '--unwinding-assertions', lgb, ugb], hd, 300)
+            if rc != 0 or to or not os.path.exists(ugb):
+                raise Undecided('goto-instrument --unwindset failed: ' + so[-1500:])
+            lgb = ugb
+            cur = ugb
         if h.get('enforce') or h.get('loops') or h.get('dfcc', False):
             igb = os.path.join(hd, 'i.gb')
             cmd = ['goto-instrument', '--dfcc', entry]
